@@ -12,11 +12,11 @@ export GOFLAGS=-mod=mod GOPROXY=off
 for S in "$ROOT"/C*-[0-9]; do
   N=$(basename "$S"); ID=$(echo "$N" | sed 's/^\(C[0-9]*\).*/\1/')
   [ -f "$S/patch.diff" ] || continue
-  rm -rf "$W/repo"; git clone -q /repo "$W/repo"
+  cd "$W"; rm -rf "$W/repo"; git clone -q /repo "$W/repo"
   cd "$W/repo"
   cp "$S/demo_test.go" zz_demo_seed_test.go 2>/dev/null
   go test -vet=off -count=1 -run 'ZZ|Demo|Seed|zz' . > "$W/base.log" 2>&1; base=$?
-  if ! git apply "$S/patch.diff" 2>/dev/null; then echo "$N	$ID	patch-does-not-apply	-	-	-" >> "$OUT"; continue; fi
+  if ! git apply "$S/patch.diff" 2>/dev/null && ! git apply -3 "$S/patch.diff" 2>/dev/null; then git checkout -q -- . ; echo "$N	$ID	patch-does-not-apply	-	-	-" >> "$OUT"; continue; fi
   go test -vet=off -count=1 -run 'ZZ|Demo|Seed|zz' . > "$W/mut.log" 2>&1; mut=$?
   rm -f zz_demo_seed_test.go
   suite=1
